@@ -368,7 +368,7 @@ func c19Main(rc *RunCtx) {
 	// ---- crash points: prefixes of the dump ----
 	C := mk("")
 	var lens []int
-	if len(intact) <= 1500 {
+	if len(intact) <= widen(1500, 6000) {
 		c.prefixExhaustive = true
 		for l := 0; l < len(intact); l++ {
 			lens = append(lens, l)
